@@ -143,7 +143,7 @@ def run(ctx):
            failing_history=None if tds else 'proved state at block 20 (last_n = 5); SendLastState(23\') where 23\' commits a chain root over the real leaves 0..=22 with the '
            'difficulty of an undisclosed leaf raised by 2^200; the proof without samples [20..22] + real MMR proof is accepted and the inflated total difficulty is stored')
     if tds:
-        ctx.guard('C12.r5', E, CT, 'Ok', commit)
+        ctx.guard('C12.r5', E, CT, 'Ok', commit, unconditional=False)
         edu = DefUse(E)
         with_last = False
         for bid, t in tds:
@@ -152,6 +152,14 @@ def run(ctx):
                     o[0] == 'call' and (o[1].endswith('SendLastStateProofReader::last_header') or o[1].endswith('last_header')) for o in org):
                 with_last = True
         ctx.ob('C12.r5', E.name, 'the chained section ends with the last header itself (last-N headers ++ last header)', with_last)
+        wl = [t for bid, t in tds if any(o[0] == 'call' and o[1].endswith('Iterator>::chain') for o in edu.origins(t.args[1], stop_at_calls=False))]
+        if wl:
+            ctx.guard('C12.r5', E, lambda kk, tt, _w=wl: any(tt is x for x in _w), 'Ok', commit, unconditional=True, gname=CT + ' (last-N ++ last header)')
+        # (F79) without samples the reorg section and the last-N section are one continuous chain: the border pair is chained too
+        border = [t for bid, t in tds if any(o[0] == 'call' and 'RangeInclusive' in o[1] for o in edu.origins(t.args[1], stop_at_calls=False))]
+        ctx.ob('C12.r5', E.name, 'without samples the total difficulty is chained across the reorg / last-N border as well', bool(border),
+               failing_history=None if border else 'real headers [15..19] as reorg headers, forged [20..24] and forged last #25 with an inflated total difficulty hidden in an MMR proof item: '
+               'accepted, the stored total difficulty jumps to 2^252')
     if not P.has(CT):
         ctx.ob('C12.r5', CT, 'the chaining check exists', False)
         from rules import census_fns
@@ -173,6 +181,21 @@ def run(ctx):
                     # the loop may run zero times (fewer than two headers): the comparison is a per-pair guard
                     tied = bool(sinks) and all(gf.check_sink(bid, acc, sb, False)[0] for sb, _, _ in sinks)
     ctx.ob('C12.r5', H.name, 'Ok only if every chain root commits the (checked) total difficulty of the header before it', tied)
+    # r6 (F78, F80): what the stored total difficulty rests on
+    from rules import census_fns as _cf
+    _cf.requires(ctx, 'C12.r6', 'LightClientProtocol::check_verifiable_header', r'^Ok\(\(\)\)', r'EpochNumberWithFraction::(le|gt|lt|ge)\(HeaderView::epoch|HeaderView::is_genesis',
+                 'a last state is accepted only if its header commits a chain root (epoch after the MMR activation, or genesis)',
+                 'a new peer announces block #1000 claiming epoch 0 (activation 1): the chain roots of the samples are chosen after the samples are known, a tip with total difficulty 2^250 is stored')
+    Eb = ctx.body('SendLastStateProofProcess::execute')
+    vt = P.call_sites(Eb, 'verify_tau')
+    edu6 = DefUse(Eb)
+    chained = [t for b, t in vt if any(o[0] == 'call' and (o[1].endswith('Iterator>::chain') or o[1].endswith('slice::windows')) for a in t.args[:4] for o in edu6.origins(a, stop_at_calls=False))]
+    ctx.ob('C12.r6', Eb.name, 'the compact targets of the last-N headers and of the last header are verified pairwise (verify_tau over windows of last-N ++ last header)', bool(chained),
+           verify_tau_calls=len(vt),
+           failing_history=None if chained else 'proof without samples whose last header has another compact target than its parent in the same epoch (the header the child shortcut refuses): stored')
+    if chained:
+        ctx.guard('C12.r6', Eb, lambda kk, tt, _c=chained: any(tt is x for x in _c), 'Ok(true)', ctx.sites(Eb, 'LightClientProtocol::commit_prove_state', 1), unconditional=False,
+                  gname='verify_tau(pair of last-N ++ last header)')
     # reviewed reference of the checker functions' decision structure (engine/census.py)
     from rules import census_fns
     census_fns.run(ctx, 'C12')
